@@ -134,3 +134,117 @@ func runKeyedRules(p *Program, id string) ([]*Gen, []string) {
 	}
 	return gens, errs
 }
+
+// Guarded sites: a site may only be reached under ALL of the listed branch conditions (dominance over go/ssa).
+//
+//	//@ guarded NAME PROPS...: func=F ; in=pkg ; site=SITE ; require=true:PATH && false:PATH ; scenario=T
+//
+// SITE may also be `return N PATTERN` (a return whose N-th result has an access path matching PATTERN) or
+// `assign NAME PATTERN` (an assignment to the local / named result NAME of a value matching PATTERN).
+func runGuardedRules(p *Program, id string) ([]*Gen, []string) {
+	var gens []*Gen
+	var errs []string
+	for _, d := range p.CS.Dirs {
+		if d.Kind != "guarded" {
+			continue
+		}
+		j := strings.Index(d.Text, ":")
+		if j < 0 {
+			continue
+		}
+		head := strings.Fields(d.Text[:j])
+		if len(head) == 0 || !hasProp(head[1:], id) {
+			continue
+		}
+		name := head[0]
+		kv := map[string]string{}
+		for _, part := range strings.Split(d.Text[j+1:], ";") {
+			part = strings.TrimSpace(part)
+			if k := strings.Index(part, "="); k > 0 {
+				kv[strings.TrimSpace(part[:k])] = strings.TrimSpace(part[k+1:])
+			}
+		}
+		var sp *ssa.Package
+		for path, x := range p.Pkgs {
+			if x.Pkg.Name() == kv["in"] && strings.HasPrefix(path, modPath) {
+				sp = x
+			}
+		}
+		if sp == nil {
+			errs = append(errs, "contract-stale: guarded "+name+": package not loaded")
+			continue
+		}
+		fn := p.LookupFunc(sp.Pkg.Path(), kv["func"])
+		if fn == nil {
+			errs = append(errs, "contract-stale: guarded "+name+": function "+kv["func"]+" not found")
+			continue
+		}
+		g := NewGen(p, nil, nil)
+		g.Label = "guarded " + name
+		var fns []*ssa.Function
+		var collect func(f *ssa.Function)
+		collect = func(f *ssa.Function) {
+			fns = append(fns, f)
+			for _, a := range f.AnonFuncs {
+				collect(a)
+			}
+		}
+		collect(fn)
+		n := 0
+		guards := splitList(kv["require"], "&&")
+		for _, f := range fns {
+			for _, b := range f.Blocks {
+				for _, in := range b.Instrs {
+					desc, ok := "", false
+					if sf := strings.Fields(kv["site"]); len(sf) == 3 && sf[0] == "return" {
+						if ret, isRet := in.(*ssa.Return); isRet {
+							var k int
+							fmt.Sscanf(sf[1], "%d", &k)
+							if k < len(ret.Results) && pathMatches(valuePath(ret.Results[k]), sf[2]) {
+								desc, ok = "return of "+valuePath(ret.Results[k]), true
+							}
+						}
+					} else if sf := strings.Fields(kv["site"]); len(sf) == 3 && sf[0] == "assign" {
+						// `assign NAME PATTERN`: an assignment to the local or named result NAME of a value matching PATTERN
+						if st, isSt := in.(*ssa.Store); isSt {
+							if al, isAl := st.Addr.(*ssa.Alloc); isAl && al.Comment == sf[1] && pathMatches(valuePath(st.Val), sf[2]) {
+								desc, ok = sf[1]+" = "+valuePath(st.Val), true
+							}
+						}
+					} else {
+						desc, ok = siteMatches(p, kv["site"], in)
+					}
+					if !ok {
+						continue
+					}
+					n++
+					o := &Oblig{Name: fmt.Sprintf("%s.%s#guarded:%s.%d", kv["in"], kv["func"], name, n), Kind: "guarded", Goal: "true", Pre: "unsat", AutoSite: true,
+						Pos:  strings.TrimPrefix(p.Fset.Position(in.Pos()).String(), p.Repo+"/"),
+						Text: "guarded " + name + ": " + desc + " — " + strings.TrimSpace(d.Text[j+1:])}
+					if holds, missing := guardsHold(in, guards); !holds {
+						var have []string
+						for _, fct := range domFacts(in) {
+							if fct.cond != nil {
+								pol := "true"
+								if fct.neg {
+									pol = "false"
+								}
+								have = append(have, pol+":"+valuePath(fct.cond))
+							}
+						}
+						o.Pre = "sat"
+						o.Model = "the site is not dominated by " + missing + " (dominating conditions: " + strings.Join(have, " ; ") + ")"
+						o.ReplayTemplate = kv["scenario"]
+						o.ReplayPkgDir = strings.TrimPrefix(strings.TrimPrefix(d.Pkg, modPath), "/")
+					}
+					g.Obligs = append(g.Obligs, o)
+				}
+			}
+		}
+		if n == 0 {
+			errs = append(errs, "contract-stale: guarded rule "+name+" matches no site")
+		}
+		gens = append(gens, g)
+	}
+	return gens, errs
+}
